@@ -810,12 +810,18 @@ func hook(name string, args ...any) {
 	}
 }
 
-const watchdog = 6 * time.Second
+// Timing. Every step of a case synchronises on a signal of the code itself (hook point reached, HandleEventBatch
+// returned, VerifSync returned, Start returned). The only verdict that depends on a clock is "the implementation hung":
+// watchdog is far above anything scheduling delay can cause on a loaded machine (and below hx's 180 s no-progress
+// detector, which would otherwise attribute the hang to the case anyway), and after ONE hang the rest of the run is
+// not executed. The two short pauses below (300 us, 3 ms) never decide what is recorded on a correct operator: they
+// only give a broken one time to show a premature release before the next step.
+const watchdog = 90 * time.Second
 
 func (eng) Execute(mode string, c *hx.Case) (*hx.Result, error) {
-	if stuckCases.Load() >= 3 {
-		// the implementation hung three times already (each hang leaves a spinning or blocked operator behind)
-		return &hx.Result{Term: "AlignCase 1%nat 0 false [OStuck 9]", Tags: []string{"STUCK-skipped"}, Observed: "skipped after three hangs"}, nil
+	if stuckCases.Load() >= 1 {
+		// the implementation hung already (a hang leaves a spinning or blocked operator behind)
+		return &hx.Result{Term: "AlignCase 1%nat 0 false [OStuck 9]", Tags: []string{"STUCK-skipped"}, Observed: "skipped after a hang"}, nil
 	}
 	n := pInt(c, "n", 2)
 	maxSize := pInt(c, "max_size", 0)
@@ -831,7 +837,12 @@ func (eng) Execute(mode string, c *hx.Case) (*hx.Result, error) {
 	if err != nil {
 		return nil, err
 	}
-	defer os.RemoveAll(dir)
+	keepDir := false // set when the operator may still be running at the end of the case: its storage is then left alone
+	defer func() {
+		if !keepDir {
+			os.RemoveAll(dir)
+		}
+	}()
 
 	seq := caseSeq.Add(1)
 	rec := &recorder{}
@@ -898,10 +909,13 @@ func (eng) Execute(mode string, c *hx.Case) (*hx.Result, error) {
 	}
 	defer func() {
 		opr.Stop()
+		// the case's directory is removed only after the operator's own completion signal (Start returned: event loop
+		// gone, DKV closed); if that does not come, the directory stays (sweepStale removes it much later)
 		if !startReturned {
 			select {
 			case <-started:
 			case <-time.After(watchdog):
+				keepDir = true
 			}
 		}
 		close(quit)
@@ -915,6 +929,7 @@ func (eng) Execute(mode string, c *hx.Case) (*hx.Result, error) {
 		jobs = append(jobs, map[string]any{"stuck": what, "op": o})
 		tags["STUCK"] = true
 		stuckCases.Add(1)
+		keepDir = true
 	}
 	evTerm := func() (string, []any) { return evSplit(rec.take()) }
 	nCk, nParkAtCk, nPendAtCk, nInflightAtCk, nWrong, nTimeoutFlush, nStale, nGate := 0, 0, 0, 0, 0, 0, 0, 0
@@ -1068,7 +1083,12 @@ func (eng) Execute(mode string, c *hx.Case) (*hx.Result, error) {
 			}
 		}
 		if anyParked && lastWasBarrier {
-			time.Sleep(300 * time.Microsecond) // not a synchronisation: only raises the chance to see a premature release
+			// Not a synchronisation and no "absence" observation: if nothing shows up, NOTHING is recorded and the sender is
+			// still considered parked (a later wake op waits for its signal). The pause only gives an operator that
+			// releases a sender without completing the checkpoint the time to show it before the next step; a release
+			// signal cannot exist on a correct operator here (the channel is closed only by the barrier that completes
+			// the alignment, whose report - or failed cut - the harness has already seen when it gets here).
+			time.Sleep(300 * time.Microsecond)
 		}
 		for i, s := range snd {
 			if !failedCut && s.mode == 1 && s.parkCk == rec.completions() {
@@ -1246,6 +1266,10 @@ func (eng) Execute(mode string, c *hx.Case) (*hx.Result, error) {
 			case err := <-s.ret:
 				abandoned(o.S, err)
 			case <-time.After(3 * time.Millisecond):
+				// nothing showed up: nothing more is recorded (OCancel was recorded before the pause, whatever follows).
+				// The sender is still considered parked; a release that shows up later is picked up by the poll at the
+				// top of the loop (premature) or by the wake op (legitimate). So the expiry only makes the detection
+				// of a broken operator later, it never changes the history of a correct one.
 			}
 		case "fire":
 			if tm.fire() {
